@@ -25,6 +25,7 @@ IsCoord(f, k) == Has(f.coords, k)
 ArrOf(v) == Arr(v.shape, v.vals, v.mask)
 WithArr(v, a) == [v EXCEPT !.shape = a.shape, !.vals = a.vals, !.mask = a.mask]
 NoDup(s) == \A i, j \in 1..Len(s) : s[i] = s[j] => i = j
+NumTypes == {"f", "d", "i", "l", "h", "q"}
 
 \* --------------------------------------------------------- C01 well-formedness
 \* returns "" when well-formed, otherwise the first failing clause
@@ -76,10 +77,10 @@ VarDiff(g, e, mode) ==
   ELSE IF g.enc # e.enc THEN "encoding"
   ELSE IF ~ValsEq(g, e) THEN "values"
   ELSE IF mode \in {"full", "fullfv"} /\ g.dt # e.dt THEN "dtype"
-  ELSE IF mode = "full" /\ SeqSet(g.attrs) # SeqSet(e.attrs) THEN "attributes"
-  \* "fullfv": the fill_value attribute is the library's encoding of "this
-  \* variable is masked" and may appear when a variable becomes masked
-  ELSE IF mode = "fullfv" /\ NoFV(g.attrs) # NoFV(e.attrs) THEN "attributes"
+  \* the fill_value attribute is the library's encoding of "this variable is
+  \* masked": on a masked result it is not compared
+  ELSE IF mode \in {"full", "fullfv"} /\ ~g.masked /\ SeqSet(g.attrs) # SeqSet(e.attrs) THEN "attributes"
+  ELSE IF mode \in {"full", "fullfv"} /\ g.masked /\ NoFV(g.attrs) # NoFV(e.attrs) THEN "attributes"
   ELSE ""
 
 DimSet(f) == {f.dims[i] : i \in 1..Len(f.dims)}
@@ -203,6 +204,7 @@ Dom_stack(fs, a) ==
        /\ \A k \in SeqSet(VarNames(f)) :
             /\ VarRec(fs[j], k).dims = VarRec(f, k).dims
             /\ VarRec(fs[j], k).enc = VarRec(f, k).enc
+            /\ VarRec(fs[j], k).dt = VarRec(f, k).dt
 
 RECURSIVE ConcatArr(_, _)
 \* concatenate a non-empty sequence of arrays along axis ax
@@ -359,6 +361,7 @@ Dom_arith(fs, a) ==
        (~IsCoord(f, v.name) /\ HasVar(g, v.name)) =>
           /\ VarRec(g, v.name).shape = v.shape
           /\ v.enc = "num" /\ VarRec(g, v.name).enc = "num"
+          /\ v.dt \in NumTypes /\ VarRec(g, v.name).dt \in NumTypes
           \* a quotient stored into an integer variable is truncated by the
           \* variable's dtype; the property speaks of the elementwise result,
           \* so true division and powers are in the domain for float data only
@@ -431,4 +434,44 @@ EvalDiff(g, e) ==
        THEN LET i == CHOOSE i \in 1..Len(e.vars) : VarDiff(VarRec(g, e.vars[i].name), e.vars[i], "val") # ""
             IN "variable " \o e.vars[i].name \o ": " \o VarDiff(VarRec(g, e.vars[i].name), e.vars[i], "val")
   ELSE ""
+
+\* ================================================= what the machinery can decide
+\* TLC integers are 32-bit; the value clauses are evaluated only where the exact
+\* rational arithmetic of the specification cannot overflow.  These guards limit
+\* the verification, not the documented domain of the operations.
+RECURSIVE MaxSeqI(_)
+MaxSeqI(s) == IF Len(s) = 0 THEN 0 ELSE MaxI(Head(s), MaxSeqI(Tail(s)))
+MaxAbs(v) == IF v.enc # "num" THEN 0 ELSE MaxSeqI([k \in 1..Len(v.vals) |-> AbsI(v.vals[k].n)])
+MaxDen(v) == IF v.enc # "num" THEN 1 ELSE MaxSeqI([k \in 1..Len(v.vals) |-> v.vals[k].d])
+Dec_apply(f, a) ==
+  \A i \in 1..Len(f.vars) :
+    LET v == f.vars[i]
+        axes == {ax \in 1..Len(v.dims) : v.dims[ax] \in FuncDims(a)}
+        fns == {FuncOf(a, v.dims[ax]).f : ax \in axes}
+    IN axes # {} =>
+         /\ MaxDen(v) = 1 /\ Cardinality(axes) <= 2
+         /\ ("var" \in fns => Cardinality(axes) = 1 /\ MaxAbs(v) <= 2000)
+         /\ ("prod" \in fns => Cardinality(axes) = 1 /\ MaxAbs(v) <= 30)
+         /\ MaxAbs(v) <= 20000
+Dec_arith(fs, a) ==
+  \A i \in 1..Len(fs[1].vars) :
+    LET v == fs[1].vars[i] IN
+    (~IsCoord(fs[1], v.name) /\ HasVar(fs[2], v.name)) =>
+      LET w == VarRec(fs[2], v.name) IN
+      /\ MaxAbs(v) <= 20000 /\ MaxAbs(w) <= 20000 /\ MaxDen(v) <= 100 /\ MaxDen(w) <= 100
+      /\ (a.op = "**" => MaxAbs(v) <= 1000 /\ MaxDen(v) = 1)
+Sat(x) == IF x > 1000000000 THEN 1000000000 ELSE x
+RECURSIVE ExprBound(_)
+ExprBound(e) ==
+  CASE e.t = "var" -> 1000
+    [] e.t = "int" -> AbsI(e.v)
+    [] e.t = "bin" -> LET x == ExprBound(e.l) y == ExprBound(e.r) IN
+                      IF e.op \in {"+", "-"} THEN Sat(x + y)
+                      ELSE IF e.op = "*" THEN (IF x > 30000 \/ y > 30000 THEN 1000000000 ELSE Sat(x * y))
+                      ELSE 1
+    [] e.t = "where" -> MaxI(ExprBound(e.x), ExprBound(e.y))
+Dec_eval(f, a) ==
+  \A i \in 1..Len(a.assign) :
+    /\ ExprBound(a.assign[i].e) < 1000000000
+    /\ \A k \in ExprVars(a.assign[i].e) : MaxAbs(VarRec(f, k)) <= 1000 /\ MaxDen(VarRec(f, k)) = 1
 =================================================================================
